@@ -47,6 +47,20 @@ TRANSPARENT = ("clone", "as_ref", "as_mut", "borrow", "borrow_mut", "deref", "de
 LEGACY_KEYS = bool(os.environ.get("VERIF_LEGACY_KEYS"))
 
 
+def root_fn_short(body):
+    """short path of the function a body belongs to: closures are followed to their (possibly new, after a helper
+    was spliced into its caller) enclosing function"""
+    b = body
+    n = 0
+    while b.kind == "closure" and n < 10:
+        n += 1
+        pb = b.prog.bodies.get(b.item.get("parent"))
+        if pb is None:
+            break
+        b = pb
+    return b.short.split("::{closure")[0]
+
+
 class Site:
     def __init__(self, body, kind, node, what, operand=None):
         self.body = body
@@ -73,7 +87,7 @@ class Site:
         # named single-definition locals are expanded (hoisting an expression into a variable, or
         # inlining one, keeps the key) and closures are keyed by their enclosing function (closure
         # numbers shift when another closure is added)
-        fn = self.body.short.split("::{closure")[0]
+        fn = root_fn_short(self.body)
         return "%s|%s|%s|%s" % (self.kind, fn, self.what, shape_str(xo))
 
 
